@@ -27,7 +27,7 @@ SPECIAL = [{"family": "polyhedron", "name": "tetrahedron", "ops": []}, {"family"
 
 def cases(tier, seed):
     rng = np.random.default_rng([seed, 606])
-    n = 480 if tier == "quick" else 9000
+    n = 480 if tier == "quick" else 60000
     for i in range(n):
         if i % 3 == 0:
             d = SPECIAL[(i // 3) % len(SPECIAL)]
